@@ -105,6 +105,20 @@ def run(ctx, info):
             ctx.violation("get_bounds-raises", f"get_bounds raises {berr} for {tspec!r}", meta)
             bl = "[]"
         else:
+            # the description handed out must be the caller's own copy: editing it in place (as Ant Lion does with its shrinking bounds) must not change what the task
+            # reports next time
+            try:
+                import numpy as _np
+                first = (norm(lb), norm(ub))
+                for arr in (lb, ub):
+                    if isinstance(arr, _np.ndarray) and arr.dtype != object and arr.size: arr /= 4.0; arr[...] = arr - 1.0
+                lb2, ub2 = task.get_bounds()
+                if (norm(lb2), norm(ub2)) != first:
+                    ctx.violation("bounds-shared", f"get_bounds() hands out the task's own arrays: after an in-place edit of the returned bounds the task reports {norm(lb2)!r}, {norm(ub2)!r} "
+                                  f"instead of {first!r}", meta)
+                lb, ub = lb2, ub2
+            except Exception:
+                pass
             lb, ub = norm(lb), norm(ub)
             bparts = []
             if tspec[0][0] == "perm":
